@@ -10,3 +10,6 @@ open RV.C19
 #print axioms reads_total_on_broken
 #print axioms cyclic_reads_raise
 #print axioms exEmpty_wf
+#print axioms setitem_deviates_iff
+#print axioms setitem_at_len_effect
+#print axioms n3_means_list
